@@ -94,7 +94,11 @@ AsNodeV(D, W, v, o, A) ==
 GetPath(D, W, cur, o, fs, A) ==
   IF fs = <<>> THEN [ok |-> cur, o |-> o]
   ELSE LET c == AsNodeV(D, W, cur, o, A) IN
-       IF IsE(c) THEN (IF Len(fs) = 1 /\ fs[1].t = "i" /\ fs[1].i = 0 /\ c.err = "object" THEN [ok |-> cur, o |-> o] ELSE c)
+       \* a step whose element does not convert to a config: cfgPath.GetValue reports the LAST step as "missing" and an
+       \* earlier one as "expected object", whatever made the conversion fail (also a cyclic reference met while
+       \* evaluating a reference-valued intermediate: the cycle is reported at that point, the enclosing lookup fails)
+       IF IsE(c) THEN (IF Len(fs) = 1 /\ fs[1].t = "i" /\ fs[1].i = 0 /\ c.err = "object" THEN [ok |-> cur, o |-> o]
+                       ELSE IF Len(fs) = 1 THEN Missing ELSE EErr("object"))
        ELSE LET nxt == StepGet(c.ok, fs[1]) IN
             IF nxt = None THEN (IF Len(fs) = 1 THEN [ok |-> None, o |-> c.o] ELSE Missing)
             ELSE GetPath(D, W, nxt, c.o, Tail(fs), A)
@@ -110,7 +114,9 @@ TryLayers(D, W, n, layers, A, lastErr) ==
 EnvOrder(W) == [j \in 1..Len(W.envs) |-> Len(W.envs) + 1 - j]
 ResolveRef(D, W, o, n, A) ==
   IF n \in A THEN LErr("cyclic")
-  ELSE TryLayers(D, W, n, <<o>> \o EnvOrder(W), A, "")
+  \* the reference is active WHILE its path is walked: an intermediate step that is itself a reference
+  \* (a: ${a.k}) is evaluated under it and re-entering the name there is a cycle
+  ELSE TryLayers(D, W, n, <<o>> \o EnvOrder(W), A \cup {n}, "")
 
 \* the resolvers, last added first; a resolver error moves on to the next one
 ResolverText(W, n) ==
